@@ -968,12 +968,13 @@ class CursorAnalysis(object):
             ca = self.char_at(n.ast)
             res = []
             for s in outs:
+                ca_s = ca if ca is not None else self.char_of(n.ast, s)      # switch on a local that holds a character read
                 for (m, lab) in n.succs:
                     s2 = s.copy()
-                    if isinstance(lab, tuple) and ca is not None:
+                    if isinstance(lab, tuple) and ca_s is not None:
                         v = self.fold.fold(lab[1])
                         if v is not None and v != 0:
-                            r = self.learn(s2, ca, v)
+                            r = self.learn(s2, ca_s, v)
                             if r is None:
                                 continue
                             s2 = r
